@@ -16,7 +16,7 @@ ASSUMPTIONS = [
 ]
 CASES = {"quick": 30000, "thorough": 1000000}
 MIN_CASES = {"quick": 5000, "thorough": 100000}
-REQUIRED_COUNTERS = ["expr_assignments_checked", "ineq_assignments_checked", "normal_form_checked"]
+REQUIRED_COUNTERS = ["expr_assignments_checked", "ineq_assignments_checked", "normal_form_checked", "shared_operands_rechecked"]
 VARS = ["a", "b", "c", "d", "e", "f", "g", "h"]
 OPS = [">=", "<=", ">", "<", "=="]
 
@@ -56,9 +56,14 @@ def gen_T(rng, vars_, d):
     return ["negT", gen_T(rng, vars_, d - 1)]
 
 
+_POOL = [0]     # number of shared operands available while generating (set by generate)
+
+
 def gen_X(rng, vars_, d):
     """any addable operand"""
     r = rng.random()
+    if _POOL[0] and r < 0.25:
+        return ["ref", rng.randrange(_POOL[0])]        # an operand OBJECT that is used more than once
     if r < 0.1:
         return ["str", rng.choice(vars_)]
     if r < 0.3:
@@ -100,8 +105,18 @@ def generate(rng, tier, i):
     vars_ = VARS[:nv]
     depth = rng.choice([1, 2, 3, 3, 4, 4, 5, 6])
     r = rng.random()
+    # a pool of operand objects that are built once and used several times (callers keep and reuse terms / expressions)
+    _POOL[0] = 0
+    pool = []
+    if rng.random() < 0.5:
+        for _ in range(rng.randint(1, 3)):
+            k = rng.random()
+            pool.append(gen_T(rng, vars_, 2) if k < 0.6 else gen_L(rng, vars_, 1) if k < 0.75 else gen_E(rng, vars_, 2))
+        _POOL[0] = len(pool)
     if r < 0.45:
-        return {"cls": "expr", "vars": vars_, "tree": gen_E(rng, vars_, depth)}
+        case = {"cls": "expr_shared" if pool else "expr", "vars": vars_, "tree": gen_E(rng, vars_, depth), "pool": pool}
+        _POOL[0] = 0
+        return case
     lk = rng.random()
     if lk < 0.6:
         left = gen_E(rng, vars_, depth)
@@ -112,9 +127,10 @@ def generate(rng, tier, i):
         left, lkind = gen_T(rng, vars_, 2), "T"
     right = gen_X(rng, vars_, depth - 1)
     op = rng.choice(OPS)
+    _POOL[0] = 0
     if right[0] == "int" and lkind == "E" and rng.random() < 0.3:
-        return {"cls": "ineq_reflected", "vars": vars_, "left": right, "op": op, "right": left}
-    return {"cls": "ineq_" + lkind, "vars": vars_, "left": left, "op": op, "right": right}
+        return {"cls": "ineq_reflected", "vars": vars_, "left": right, "op": op, "right": left, "pool": pool}
+    return {"cls": "ineq_" + lkind + ("_shared" if pool else ""), "vars": vars_, "left": left, "op": op, "right": right, "pool": pool}
 
 
 def directed():
@@ -140,9 +156,15 @@ def setup(ctx):
     _pb = pb
 
 
+_pool_objs: list = []
+_pool_trees: list = []
+
+
 def build(t):
     pb = _pb
     k = t[0]
+    if k == "ref":
+        return _pool_objs[t[1]]
     if k == "lit":
         return pb.Literal(t[1], t[2])
     if k == "negL":
@@ -183,6 +205,8 @@ def build(t):
 def ev(t, asg):
     """direct integer evaluation of the tree"""
     k = t[0]
+    if k == "ref":
+        return ev(_pool_trees[t[1]], asg)
     if k == "lit":
         v = asg[t[1]]
         return v if t[2] else 1 - v
@@ -214,6 +238,8 @@ def nodes(t):
 
 
 def used_vars(t, acc):
+    if t[0] == "ref":
+        return used_vars(_pool_trees[t[1]], acc)
     if t[0] in ("lit", "str"):
         acc.add(t[1])
     for x in t[1:]:
@@ -250,10 +276,44 @@ def _cmp(a, op, b):
     return {">=": a >= b, "<=": a <= b, ">": a > b, "<": a < b, "==": a == b, "=": a == b}[op]
 
 
+def operand_value(o, asg):
+    pb = _pb
+    if isinstance(o, pb.Literal):
+        v = asg[o.v]
+        return v if o.s else 1 - v
+    if isinstance(o, pb.Term):
+        v = asg[o.L.v]
+        return o.c * (v if o.L.s else 1 - v)
+    return expr_value(o, asg)
+
+
 def check(case, ctx):
     pb = _pb
     vars_ = case["vars"]
     assignments = [dict(zip(vars_, bits)) for bits in itertools.product((0, 1), repeat=len(vars_))]
+    _pool_trees[:] = case.get("pool", [])
+    _pool_objs[:] = []
+    for t in _pool_trees:
+        ok, o = ctx.call(build, t)
+        if not ok:
+            ctx.violation("expr_build_raised", f"building a shared operand raised {type(o).__name__}: {o}")
+            return
+        _pool_objs.append(o)
+    try:
+        _check(case, ctx, assignments)
+    finally:
+        # operands handed to the algebra must still mean what they meant (no operation may alter its arguments)
+        for t, o in zip(_pool_trees, _pool_objs):
+            ctx.count("shared_operands_rechecked")
+            for asg in assignments:
+                if operand_value(o, asg) != ev(t, asg):
+                    ctx.violation("operand_mutated", f"an operand built as {t} now evaluates to {operand_value(o, asg)} instead of {ev(t, asg)} under {asg}: an operation altered its argument")
+                    break
+
+
+def _check(case, ctx, assignments):
+    pb = _pb
+    vars_ = case["vars"]
     if "tree" in case:
         tree = case["tree"]
         ok, e = ctx.call(build, tree)
